@@ -50,7 +50,7 @@ def uf(name, arity):
     return _UF[key]
 
 
-def to_z3(expr, env, funcs=None):
+def to_z3(expr, env, funcs=None, opaque=False, fname=None):
     """Translate one expression of the equation language. env: name -> z3 term (callable or dict)."""
     if isinstance(env, dict):
         d = env
@@ -96,6 +96,8 @@ def to_z3(expr, env, funcs=None):
                     for _ in range(n.right.value):
                         out = out * a
                     return out
+                if opaque:
+                    return uf('pow', 2)(rec(n.left), rec(n.right))
                 raise Untranslatable('** with non-literal exponent')
             a, b = rec(n.left), rec(n.right)
             if isinstance(n.op, ast.Add): return a + b
@@ -108,7 +110,16 @@ def to_z3(expr, env, funcs=None):
             if isinstance(n.op, ast.UAdd): return rec(n.operand)
             raise Untranslatable(ast.dump(n.op))
         if isinstance(n, ast.Constant):
+            if opaque and isinstance(n.value, str):
+                return z3.Real('strlit:' + n.value)
+            if opaque and isinstance(n.value, complex):
+                return z3.Real('numlit:' + repr(n.value))
             return rat(n.value)
+        if opaque and isinstance(n, (ast.List, ast.Tuple)):
+            args = [rec(a) for a in n.elts]
+            return uf('list%d' % len(args), len(args))(*args) if args else z3.Real('emptylist')
+        if opaque and isinstance(n, (ast.Compare, ast.BoolOp)):
+            return z3.If(boolean(n), z3.RealVal(1), z3.RealVal(0))
         if isinstance(n, ast.Name):
             return env(n.id)
         if isinstance(n, ast.IfExp):
@@ -116,6 +127,8 @@ def to_z3(expr, env, funcs=None):
         if isinstance(n, ast.Call) and isinstance(n.func, ast.Name) and not n.keywords:
             args = [rec(a) for a in n.args]
             f = n.func.id
+            if fname is not None:
+                f = fname(f)
             if f in funcs:
                 return funcs[f](*args)
             if f == 'abs' and len(args) == 1: return zabs(args[0])
